@@ -35,6 +35,22 @@ def setIdx {α} (l : List α) (i : Int) (v : α) : Option (List α) :=
 /-- `make([]int, n)`: panics when `n` is negative -/
 def makeInts (n : Int) : Option (List Int) := if n < 0 then none else some (List.replicate n.toNat 0)
 
+/-- `s[:k]`: panics when `k` is negative or larger than the length (the translated functions never
+    reslice beyond the length into spare capacity) -/
+def sliceTo {α} (l : List α) (k : Int) : Option (List α) :=
+  if k < 0 then none else if k.toNat ≤ l.length then some (l.take k.toNat) else none
+
+/-- `s[k:]`: panics when `k` is negative or larger than the length -/
+def sliceFrom {α} (l : List α) (k : Int) : Option (List α) :=
+  if k < 0 then none else if k.toNat ≤ l.length then some (l.drop k.toNat) else none
+
+/-- a loop that would run longer than the fuel the translator computed for it (never reached: the tie
+    theorems prove the translated functions equal to total model functions) -/
+def goDiverge {α} : Option α := none
+
+/-- `new(big.Int).Mul(x, y)` -/
+def bMul (x y : Int) : Int := x * y
+
 /-- `new(big.Int).Or(x, y)` on non-negative values (bitsets) -/
 def bOr (x y : Int) : Int := ((x.toNat ||| y.toNat : Nat) : Int)
 
